@@ -168,11 +168,22 @@ pub fn encap_ext_big_mandatory_lattice() {
         }
         Ok(EncapStatus::CompletedPkt(n)) => {
             assert!(*n as usize <= buf_len && *n as usize <= 4097, "C06.lattice_complete_len_bounds");
+            // the 12-bit GSE length written in the header is the returned length minus 2
+            let field = (((buf_v[0] as usize) << 8) | buf_v[1] as usize) & 0x0FFF;
+            assert!(field + 2 == *n as usize, "C13.reported_len_is_on_wire_len");
+            assert!(buf_v[0] & 0xC0 == 0xC0, "C13.start_end_bits");
             kani::cover!(ext_len > 4000, "complete_with_big_extension");
         }
-        Ok(EncapStatus::FragmentedPkt(n, _)) => {
+        Ok(EncapStatus::FragmentedPkt(n, ctx)) => {
             assert!(*n as usize <= buf_len && *n as usize <= 4097, "C06.lattice_first_len_bounds");
+            let field = (((buf_v[0] as usize) << 8) | buf_v[1] as usize) & 0x0FFF;
+            assert!(field + 2 == *n as usize, "C13.reported_len_is_on_wire_len");
+            assert!(buf_v[0] & 0xC0 == 0x80, "C13.start_end_bits");
+            // on-wire length = fixed header, frag id, total length, type field, label, extension
+            // (2-byte type + data; a final mandatory extension replaces the protocol type), payload
+            assert!((ctx.len_pdu_frag() as usize) < pdu_len, "C13.first_ctx_inside_pdu");
             kani::cover!(ext_len > 4000, "first_with_big_extension");
+            kani::cover!(ext_len < 10 && pdu_len > 100, "first_with_small_extension");
         }
     }
     core::mem::forget(enc);
